@@ -21,6 +21,7 @@ import Ioc.Generated.Facts
 import IocProofs.Lemmas.SemRegistry
 import IocProofs.Lemmas.SemFactory
 import IocProofs.Lemmas.SemCreate
+import IocProofs.Lemmas.M2StepFault
 namespace Ioc.C04
 open Ioc Ioc.Reg
 
@@ -371,5 +372,18 @@ example : (execs Reg.empty [.getOrCreate 1 (.error .fail) [.getOrCreate 2 (.erro
     (Reg.empty, [.begin 1, .begin 2, .ret 1 (.obj ⟨1, 0⟩) true true, .begin 3, .begin 4, .ret 4 .err false false,
       .ret 3 .err false false, .ret 2 .err false false, .ret 1 .err false false,
       .ret 1 .none false false, .ret 2 .none false false, .ret 3 .none false false]) := by decide
+
+/-- the last clause of C04 on the factory machine: after a FAILED run, a lookup of a name that is not published
+    (`M2.lookupAfter`: the state as the failed run left it, creation resumed for that name) is answered by NOTHING of the
+    failed attempt — no early reference (l2) and no early-reference factory (l3) is left (`C09_failed_final`) — so the first
+    step is a fresh `enter`: it re-attempts creation (and then reports an error or publishes a completed instance) -/
+theorem C04_machine_retry_recreates (sc sc' : M2.Scen) (k x : Nat) (s : M2.Stage) (n : Nat)
+    (h : (M2.run sc k (M2.init sc)).status = .failed x s) (hl : (M2.run sc k (M2.init sc)).l1 n = none) :
+    M2.step sc' { (M2.run sc k (M2.init sc)) with status := .running, todo := [n], todoBoot := [], stage := .refresh } =
+      M2.enter sc' { (M2.run sc k (M2.init sc)) with status := .running, todo := [], todoBoot := [], stage := .refresh } n := by
+  obtain ⟨_, hst, hc⟩ := M2.Lc.failed_final sc k x s h
+  have h2 := (hc n).1
+  have h3 := (hc n).2
+  simp [M2.step, hst, M2.lookup, hl, h2, h3]
 
 end Ioc.C04
